@@ -786,6 +786,35 @@ pub fn drive_histories(a: &Args, w: &Words, budget_bytes: usize, maxlen: usize, 
         rec.hash_stream(0, &mut rng, 40000);
         used += n;
     }
+    // declarations from the whole u64 range: around every power of two that an intermediate sum or a
+    // narrower type could wrap at, up to u64::MAX; each refused one must leave the generator as it
+    // was (a valid declaration, data and a finalisation follow on the same object)
+    if with_decl {
+        let mut vals: Vec<u64> = vec![MAXSZ - 1, MAXSZ, MAXSZ + 1, MAXSZ + 191, MAXSZ + 192, MAXSZ + 193];
+        for sh_ in [31u32, 32, 38, 40, 48, 56, 62, 63] {
+            let p = 1u64 << sh_;
+            vals.extend_from_slice(&[p - 193, p - 192, p - 191, p - 1, p, p + 1, p + 191, p + 192]);
+        }
+        for d in [0u64, 1, 2, 95, 96, 190, 191, 192, 193, 255, 256, 383, 384] {
+            vals.push(u64::MAX - d);
+        }
+        for (i, &v) in vals.iter().enumerate() {
+            if i % 6 == 0 {
+                rec.begin();
+                rec.new_gen(0);
+            } else {
+                rec.reset(0);
+            }
+            rec.set_fixed(0, v, i % 2 == 1);
+            rec.fin(0);
+            let data = make_input(&mut rng, w, (i % 5) as u64, 40 + i);
+            // a second declaration: the right one for what is about to be fed (accepted iff the first
+            // was refused or was this very value)
+            rec.set_fixed(0, data.len() as u64, i % 3 == 0);
+            rec.update(0, (i % 6) as u8, &data);
+            rec.fin(0);
+        }
+    }
     // one call of more than 2^16 ordinary bytes per form (a 16-bit length or position would wrap)
     if !with_decl {
         for f in 0..2u8 {
